@@ -1,3 +1,4 @@
+\* ACCUMULATIVE directed graphs
 \* directed, 3 nodes without self-loops, instants 0..1: 4096 graphs
 SPECIFICATION Spec
 CONSTANTS
@@ -6,7 +7,7 @@ CONSTANTS
   PDir = TRUE
   PLoops = FALSE
   PKF <- PathKF
-  PAcc = FALSE
+  PAcc = TRUE
   PSparse = FALSE
 INVARIANT InvPaths
 INVARIANT InvValid
